@@ -65,4 +65,42 @@ theorem tail_bookkeeping (G : ℝ → ℝ) (lo hi M : ℝ) (hlh : lo ≤ hi) (hM
   simp only [Nat.cast_zero]
   ring
 
+/-- the same expectation with the origin shifted to `lo` (the form the code integrates after 867c66b):
+`∫ (1[y>0] − G) = lo + ∫_lo^hi (1 − G)` -/
+theorem shifted_bookkeeping (G : ℝ → ℝ) (lo hi M : ℝ) (hlh : lo ≤ hi) (hM1 : -M ≤ lo) (hM2 : hi ≤ M) (hM : 0 ≤ M)
+    (hG0 : ∀ y, y ≤ lo → G y = 0) (hG1 : ∀ y, hi < y → G y = 1)
+    (hint : IntervalIntegrable G volume lo hi) :
+    ∫ y in (-M)..M, (ind cast y - G y) = lo + ∫ y in lo..hi, (1 - G y) := by
+  -- `ind` is interval integrable on `[lo, hi]`: split at 0 if needed
+  have hind : IntervalIntegrable (fun y => ind cast y) volume lo hi ∧
+      ∫ y in lo..hi, ind cast y = (if (0:ℝ) < hi then hi else 0) - (if (0:ℝ) < lo then lo else 0) := by
+    by_cases h0 : 0 < lo
+    · have A := const_on_Ioc (fun y => ind cast y) lo hi 1 hlh (fun y hy => ind_pos y (by linarith [hy.1]))
+      refine ⟨A.1, ?_⟩
+      rw [A.2, if_pos h0, if_pos (by linarith)]; ring
+    · push Not at h0
+      by_cases h1 : 0 < hi
+      · have A := const_on_Ioc (fun y => ind cast y) lo 0 0 h0 (fun y hy => ind_nonpos y hy.2)
+        have B := const_on_Ioc (fun y => ind cast y) 0 hi 1 h1.le (fun y hy => ind_pos y hy.1)
+        refine ⟨A.1.trans B.1, ?_⟩
+        rw [← integral_add_adjacent_intervals A.1 B.1, A.2, B.2, if_pos h1, if_neg (not_lt.mpr h0)]; ring
+      · push Not at h1
+        have A := const_on_Ioc (fun y => ind cast y) lo hi 0 hlh (fun y hy => ind_nonpos y (by linarith [hy.2]))
+        refine ⟨A.1, ?_⟩
+        rw [A.2, if_neg (not_lt.mpr h1), if_neg (not_lt.mpr h0)]; ring
+  rw [tail_bookkeeping G lo hi M hlh hM1 hM2 hM hG0 hG1 (hind.1.sub hint),
+    intervalIntegral.integral_sub hind.1 hint, hind.2,
+    intervalIntegral.integral_sub intervalIntegrable_const hint, intervalIntegral.integral_const]
+  unfold tail cast
+  simp only [Nat.cast_zero, smul_eq_mul, mul_one]
+  by_cases h0 : 0 < lo
+  · have h1 : 0 < hi := by linarith
+    simp only [h0, h1, not_lt.mpr h1.le, if_true, if_false]; ring
+  · by_cases h1 : 0 < hi
+    · simp only [h0, h1, not_lt.mpr h1.le, if_true, if_false]; ring
+    · have : hi ≤ 0 := not_lt.mp h1
+      rcases this.lt_or_eq with h2 | h2
+      · simp only [h0, h1, h2, if_true, if_false]; ring
+      · subst h2; simp only [h0, lt_irrefl, if_false]; ring
+
 end Opda.TrapLoop
